@@ -60,6 +60,8 @@ func pool(thorough bool) []val {
 		{Src: "%{}"}, {Src: "%{1: 2}"}, {Src: "%{[1]: 2}"}, {Src: `%{"a": 1}`},
 		// containers built by merging/unpacking rather than written out (equal to a literal of the pool or to each other)
 		{Src: "%{**%{[1]: 2, 'k: 1}, **%{[1]: 3, 'j: 2}}"}, {Src: "%{'k: 1, 'j: 2, [1]: 2}"}, {Src: "%{[1]: 2, [1]: 3}"}, {Src: "%{**%{1: 2}, **%{1: 3}}"},
+		// maps made by conversion from pairs (repeated scalar / non-scalar keys)
+		{Src: "[[[1], 'a], [[1], 'a]].M"}, {Src: "[[[1], 'a], [[2], 'z]].M"}, {Src: "[[[1], 'a]].M"}, {Src: "[[1, 'a], [1, 'b]].M"}, {Src: "{a: 1}.A.M"},
 		{Src: "{**{a: 1}, **{a: 2, b: 2}}"}, {Src: "[*[1], 2]"}, {Src: "[1] + [2]"},
 		{Src: "(1:3)"}, {Src: "(1:3:1)"}, {Src: "(nil:nil)"}, {Src: "('a:'c)"},
 		{Src: "ff"}, {Src: "{|x| x}"}, {Src: "{|x| x + 1}"}, {Src: "m{|x| x}"},
@@ -99,6 +101,9 @@ var harnessSyntax func(string)
 func res(o panrun.Obs) string {
 	if o.Kind == "syntax" && harnessSyntax != nil {
 		harnessSyntax(o.ErrMsg)
+	}
+	if o.Kind == "panic" && strings.HasPrefix(o.Panic, "prelude failed") && harnessSyntax != nil {
+		harnessSyntax(o.Panic) // a pool value does not evaluate: the harness is wrong, not the interpreter
 	}
 	switch o.Kind {
 	case "value":
